@@ -19,7 +19,10 @@ FoldObs(r, n) == IF "folds" \in DOMAIN r /\ n \in DOMAIN r.folds THEN r.folds[n]
 
 \* multiset inclusion of predicted diagnostics (severity, stage, class) in the observed ones
 Count(ds, d) == Cardinality({i \in DOMAIN ds : ds[i].sev = d.sev /\ ds[i].stage = d.stage /\ ds[i].class = d.class})
-DiagsIncluded(p, o) == \A i \in DOMAIN p : Count(o, p[i]) >= Count(p, p[i])
+\* diagnostics are told apart by their message text (harness table); a message the table does not know ("Other") may be a
+\* reworded one: it counts for any class of its severity and stage, so that rewording a message is not an alarm
+CountObs(ds, d) == Cardinality({i \in DOMAIN ds : ds[i].sev = d.sev /\ ds[i].stage = d.stage /\ ds[i].class \in {d.class, "Other"}})
+DiagsIncluded(p, o) == \A i \in DOMAIN p : CountObs(o, p[i]) >= Count(p, p[i])
 Touches(lbl, sp) == lbl.s <= sp.e /\ sp.s <= lbl.e
 
 SetModel(r) == [r.obs.model EXCEPT !.igr = SetMods(@), !.cw = SetMods(@)]
@@ -50,7 +53,11 @@ Holds(c, r) ==
     [] c = "ValidSameFoldedName"   -> (HasModel(r) /\ r.obs.valid) => ValidSameFoldedName(r.obs.model, LAMBDA n : FoldObs(r, n))
     [] c = "CollectorSteps"       -> (r.obs.st = "ok" /\ "snaps" \in DOMAIN r.obs) => CollectorSteps(r.obs.snaps)
     \* ---- C07: diagnostics
-    [] c = "NoSpuriousDiagnostics" -> (WF(r) /\ r.obs.st = "ok") => \A i \in DOMAIN r.obs.diags : r.obs.diags[i].class = "DeprecatedMetadata"
+    [] c = "NoSpuriousDiagnostics" -> (WF(r) /\ r.obs.st = "ok") => \A i \in DOMAIN r.obs.diags :
+                                         \/ r.obs.diags[i].class = "DeprecatedMetadata"
+                                         \* the notice with another wording: a warning of unknown class where the notice is predicted
+                                         \/ /\ r.obs.diags[i].class = "Other" /\ r.obs.diags[i].sev = "warning"
+                                            /\ \E j \in DOMAIN r.pred.diags : r.pred.diags[j].class = "DeprecatedMetadata"
     [] c = "ValidIffOutputAndNoError" -> r.obs.st = "ok" => (r.obs.valid <=> (r.obs.has_output /\ ErrorsOf(r.obs.diags) = {}))
     [] c = "ParseErrorSuppresses"  -> (r.obs.st = "ok" /\ \E i \in ErrorsOf(r.obs.diags) : r.obs.diags[i].stage = "parse")
                                          => (~r.obs.has_output /\ \A i \in DOMAIN r.obs.diags : r.obs.diags[i].stage = "parse")
@@ -59,7 +66,7 @@ Holds(c, r) ==
     [] c = "DefectReported"        -> (HasPred(r) /\ "defect" \in DOMAIN r /\ r.obs.st = "ok") =>
                                          \E i \in DOMAIN r.obs.diags :
                                             /\ r.obs.diags[i].sev = r.defect.sev /\ r.obs.diags[i].stage = r.defect.stage
-                                            /\ r.obs.diags[i].class = r.defect.class
+                                            /\ r.obs.diags[i].class \in {r.defect.class, "Other"}
                                             /\ r.obs.diags[i].labels # <<>> /\ Touches(r.obs.diags[i].labels[1], r.defect)
     [] c = "ValidityAsPredicted"   -> (HasPred(r) /\ r.obs.st = "ok") => r.obs.valid = r.pred.valid
 \* model agreement on documents that are not well-formed is conformance detail (drift), not a clause
